@@ -297,6 +297,10 @@ func handleHotRestart(s *Session, hdr header, buf []byte) (int, bool, error) {
 	epochID := binary.BigEndian.Uint64(buf[:epochIDLen])
 	s.logger.warnf("%s [epoch:%d] receive hot restart", s.sessionName(), epochID)
 
+	if s.manager == nil {
+		return headerSize + epochIDLen, false, fmt.Errorf("unexpected hot restart event, session has no session manager")
+	}
+
 	s.dispatcher.post(func() {
 		s.manager.handleEvent(typeHotRestart, &sessionManagerHotRestartParams{epoch: epochID, session: s})
 	})
@@ -310,6 +314,10 @@ func handleHotRestartAck(s *Session, hdr header, buf []byte) (int, bool, error) 
 	}
 	epochID := binary.BigEndian.Uint64(buf[:epochIDLen])
 	s.logger.warnf("%s [epoch:%d] receive hot restart ack", s.name, epochID)
+
+	if s.listener == nil {
+		return headerSize + epochIDLen, false, fmt.Errorf("unexpected hot restart ack event, session has no listener")
+	}
 
 	s.listener.mu.Lock()
 	defer s.listener.mu.Unlock()
